@@ -39,10 +39,11 @@ func (b *Buffer) Put(key, value []byte) {
 	b.mu.Lock()
 	defer b.mu.Unlock()
 
-	// Store in the operations map - skiplist handles defensive copying
+	// Capture key and value now: the caller may reuse its buffers before the
+	// transaction commits
 	b.operations[string(key)] = &Operation{
-		Key:      key,
-		Value:    value,
+		Key:      append([]byte{}, key...),
+		Value:    append([]byte{}, value...),
 		IsDelete: false,
 	}
 }
@@ -52,9 +53,10 @@ func (b *Buffer) Delete(key []byte) {
 	b.mu.Lock()
 	defer b.mu.Unlock()
 
-	// Store in the operations map - skiplist handles defensive copying
+	// Capture the key now: the caller may reuse its buffer before the
+	// transaction commits
 	b.operations[string(key)] = &Operation{
-		Key:      key,
+		Key:      append([]byte{}, key...),
 		Value:    nil,
 		IsDelete: true,
 	}
